@@ -12,14 +12,19 @@ import (
 
 	"lunar/engine/actions"
 	lunar_messages "lunar/engine/messages"
+	"lunar/engine/metrics"
+	"lunar/engine/routing"
 	"lunar/engine/streams"
 	streamconfig "lunar/engine/streams/config"
 	lunar_context "lunar/engine/streams/lunar-context"
 	publictypes "lunar/engine/streams/public-types"
 	streamtypes "lunar/engine/streams/types"
-	engutils "lunar/engine/utils"
 	"lunar/engine/utils/environment"
 	context_manager "lunar/toolkit-core/context-manager"
+
+	"github.com/negasus/haproxy-spoe-go/message"
+	"github.com/negasus/haproxy-spoe-go/payload/kv"
+	"github.com/negasus/haproxy-spoe-go/request"
 
 	"verif/harness/internal/proto"
 )
@@ -62,6 +67,7 @@ type flowDef struct {
 	res    []connDef
 	hasURL bool
 	status []string // filter.status_code
+	real   string   // name of a real-processor flow template (`rflow`), "" = probe flow
 }
 
 // strategy of a quota / internal limit (fields as written into the YAML; absent = not written)
@@ -164,7 +170,8 @@ func (p *probe) GetRequirement() *streamtypes.ProcessorRequirement {
 func (p *probe) Execute(flowName string, apiStream publictypes.APIStreamI) (streamtypes.ProcessorIO, error) {
 	o, ok := apiStream.(*obsStream)
 	if !ok {
-		return streamtypes.ProcessorIO{}, fmt.Errorf("probe: unexpected stream type %T", apiStream)
+		// a transaction that came through the real message handler: no oracle, default outputs, not counted
+		o = &obsStream{APIStreamI: apiStream, st: &txnState{oracle: map[string]outVal{}}}
 	}
 	o.st.steps++
 	dir := dirName(apiStream.GetType())
@@ -265,7 +272,94 @@ func sideYAML(label string, e endp) string {
 	return "      " + label + ":\n" + endpYAML(e, "        ")
 }
 
+// realTemplates: flows over REAL processors that rewrite the request / response or answer it (processors and
+// flow sections; name and filter are added by flowYAML).  The model treats each as one abstract processor R.
+var realTemplates = map[string]string{
+	"transform-set": `processors:
+  R:
+    processor: TransformAPICall
+    parameters:
+      - key: set
+        value:
+          "$.request.headers['x-added']": "v1"
+          "$.request.body.added": "1"
+          "$.request.host": "rewritten.test"
+          "$.response.headers['x-added']": "v2"
+flow:
+  request:
+    - from: {stream: {name: globalStream, at: start}}
+      to: {processor: {name: R}}
+    - from: {processor: {name: R}}
+      to: {stream: {name: globalStream, at: end}}
+  response:
+    - from: {stream: {name: globalStream, at: start}}
+      to: {processor: {name: R}}
+    - from: {processor: {name: R}}
+      to: {stream: {name: globalStream, at: end}}
+`,
+	"transform-delete": `processors:
+  R:
+    processor: TransformAPICall
+    parameters:
+      - key: delete
+        value: ["$.request.headers['x-group']", "$.request.body.a", "$.response.headers['content-type']"]
+      - key: obfuscate
+        value: ["$.request.headers.host", "$.request.body.model", "$.response.body.a"]
+flow:
+  request:
+    - from: {stream: {name: globalStream, at: start}}
+      to: {processor: {name: R}}
+    - from: {processor: {name: R}}
+      to: {stream: {name: globalStream, at: end}}
+  response:
+    - from: {stream: {name: globalStream, at: start}}
+      to: {processor: {name: R}}
+    - from: {processor: {name: R}}
+      to: {stream: {name: globalStream, at: end}}
+`,
+	"sanitize": `processors:
+  R:
+    processor: DataSanitation
+flow:
+  request:
+    - from: {stream: {name: globalStream, at: start}}
+      to: {processor: {name: R}}
+    - from: {processor: {name: R}}
+      to: {stream: {name: globalStream, at: end}}
+  response:
+    - from: {stream: {name: globalStream, at: start}}
+      to: {stream: {name: globalStream, at: end}}
+`,
+	"generate": `processors:
+  T:
+    processor: TransformAPICall
+    parameters:
+      - key: set
+        value:
+          "$.request.headers['x-seen']": "1"
+  R:
+    processor: GenerateResponse
+    parameters:
+      - key: status
+        value: 418
+      - key: body
+        value: "generated"
+flow:
+  request:
+    - from: {stream: {name: globalStream, at: start}}
+      to: {processor: {name: T}}
+    - from: {processor: {name: T}}
+      to: {processor: {name: R}}
+  response:
+    - from: {processor: {name: R}}
+      to: {stream: {name: globalStream, at: end}}
+`,
+}
+
 func flowYAML(f *flowDef) string {
+	if f.real != "" {
+		return fmt.Sprintf("name: %s\nfilter:\n  url: %s\n", yq(f.name), yq(f.url)) + realTemplates[f.real]
+	}
 	var b strings.Builder
 	fmt.Fprintf(&b, "name: %s\n", yq(f.name))
 	if f.hasURL {
@@ -450,8 +544,22 @@ func (c *caseCfg) files() map[string]string {
 // ---------------------------------------------------------------- engine
 
 type engine struct {
-	dir  string
-	live *streams.Stream
+	dir     string
+	live    *streams.Stream
+	handler routing.MessageHandler // the REAL SPOE message handler over `live`
+}
+
+var metricMgr *metrics.MetricManager
+
+// realHandler: routing.Handler (through the verif hook VerifHandlerForStream) over the live stream.
+func realHandler(s *streams.Stream) routing.MessageHandler {
+	if metricMgr == nil {
+		if os.Getenv("LUNAR_PROXY_METRICS_CONFIG_DEFAULT") == "" {
+			os.Setenv("LUNAR_PROXY_METRICS_CONFIG_DEFAULT", filepath.Join(repoRoot(), "proxy/metrics.yaml"))
+		}
+		metricMgr, _ = metrics.NewMetricManager()
+	}
+	return routing.VerifHandlerForStream(s, metricMgr)
 }
 
 func (e *engine) close() {
@@ -528,12 +636,19 @@ func materialise(c *caseCfg) string {
 		writeFile(filepath.Join(dir, n), files[n])
 	}
 	regDir := filepath.Join(repoRoot(), "proxy/src/services/lunar-engine/streams/processors/registry")
-	for _, fn := range []string{"quota_processor_inc.yaml", "quota_processor_dec.yaml"} {
-		b, err := os.ReadFile(filepath.Join(regDir, fn))
+	ents, err := os.ReadDir(regDir)
+	if err != nil {
+		panic(err)
+	}
+	for _, en := range ents {
+		if en.IsDir() || !strings.HasSuffix(en.Name(), ".yaml") {
+			continue
+		}
+		b, err := os.ReadFile(filepath.Join(regDir, en.Name()))
 		if err != nil {
 			panic(err)
 		}
-		writeFile(filepath.Join(dir, "processors", fn), string(b))
+		writeFile(filepath.Join(dir, "processors", "registry_"+en.Name()), string(b))
 	}
 	environment.SetStreamsFlowsDirectory(filepath.Join(dir, "flows"))
 	environment.SetQuotasDirectory(filepath.Join(dir, "quotas"))
@@ -616,25 +731,32 @@ func (e *engine) runTxn(dir string, oracle map[string]outVal) (string, int) {
 	return res, st.steps
 }
 
-// runRaw executes a transaction with arbitrary content, built the way routing.readRequestArgs /
-// readResponseArgs build it (header block through utils.ParseHeaders, raw body bytes).
-func (e *engine) runRaw(dir, method, url, path, query, hdr, body string, status int) {
-	st := &txnState{oracle: map[string]outVal{}}
-	headers := engutils.ParseHeaders(&hdr)
-	var inner publictypes.APIStreamI
+// runRaw sends a transaction with arbitrary content through the PRODUCTION entry: a SPOE message
+// (lunar-on-[full-]request / lunar-on-[full-]response with the arguments HAProxy sends) handed to routing.Handler,
+// i.e. readRequestArgs / utils.ParseHeaders / NewRequestAPIStream / RunFlow / getSPOEReqActions and the response
+// counterparts, over the live stream.
+func (e *engine) runRaw(dir, method, url, path, query, hdr, body string, status int, full bool) {
+	kvs := kv.NewKV()
+	kvs.Add("id", "r1")
+	kvs.Add("sequence_id", "r1")
+	kvs.Add("method", method)
+	kvs.Add("url", url)
+	kvs.Add("headers", hdr)
+	kvs.Add("body", []byte(body))
+	name := lunar_messages.LunarRequest
 	if dir == "req" {
-		inner = streamtypes.NewRequestAPIStream(lunar_messages.OnRequest{
-			LunarName: lunar_messages.LunarFullRequest,
-			ID:        "r1", SequenceID: "r1", Method: method, Scheme: "https", URL: url, Path: path, Query: query,
-			Headers: headers, RawBody: []byte(body),
-		}, lunar_context.NewMemoryState[[]byte]())
+		kvs.Add("scheme", "https")
+		kvs.Add("path", path)
+		kvs.Add("query", query)
+		if full {
+			name = lunar_messages.LunarFullRequest
+		}
 	} else {
-		inner = streamtypes.NewResponseAPIStream(lunar_messages.OnResponse{
-			LunarName: lunar_messages.LunarFullResponse,
-			ID:        "r1", SequenceID: "r1", Method: method, URL: url, Status: status,
-			Headers: headers, RawBody: []byte(body),
-		}, lunar_context.NewMemoryState[[]byte]())
+		kvs.Add("status", int64(status))
+		name = lunar_messages.LunarResponse
+		if full {
+			name = lunar_messages.LunarFullResponse
+		}
 	}
-	api := &obsStream{APIStreamI: inner, st: st}
-	_ = e.live.ExecuteFlow(api, newActions(dir))
+	e.handler(&request.Request{Messages: &message.Messages{{Name: name, KV: kvs}}})
 }
